@@ -51,7 +51,12 @@ func checkC27(r *core.Run, p *core.Program) {
 	var choosers []chooser
 	chooserObjs := map[*types.Func]bool{}
 	for _, f := range funcsOf(ce) {
-		ast.Inspect(f.Decl.Body, func(n ast.Node) bool {
+		// an if / else-if chain over `b == K [|| b == K2]` on a byte is read as the equivalent switch
+		var synth []*ast.SwitchStmt
+		if sw := ifChainAsByteSwitch(info, f.Decl.Body.List); sw != nil {
+			synth = append(synth, sw)
+		}
+		visitSwitch := func(n ast.Node) bool {
 			sw, ok := n.(*ast.SwitchStmt)
 			if !ok || sw.Tag == nil {
 				return true
@@ -121,7 +126,11 @@ func checkC27(r *core.Run, p *core.Program) {
 					fmt.Sprintf("first byte 0x%02x is dispatched to %s although neither format starts with it", k, ch.cases[k]))
 			}
 			return true
-		})
+		}
+		ast.Inspect(f.Decl.Body, visitSwitch)
+		for _, sw := range synth {
+			visitSwitch(sw)
+		}
 	}
 	r.Floor("C27.dispatch", "first-byte switches in package ce", len(choosers), 2)
 	r.Count("C27.dispatch choosers", len(choosers))
@@ -503,6 +512,45 @@ func checkVersionMap(r *core.Run, p *core.Program, a *analysis, g *Grammar) {
 			}
 			return true
 		})
+		// the same guard written the other way round: `if version == expected { …; return }; panic(…)`
+		resolveLocal := func(e ast.Expr) ast.Expr {
+			if id, ok := stripParens(e).(*ast.Ident); ok {
+				if init := singleInit(info, vr, info.ObjectOf(id)); init != nil {
+					return init
+				}
+			}
+			return e
+		}
+		ast.Inspect(vr.Decl.Body, func(n ast.Node) bool {
+			blk, ok := n.(*ast.BlockStmt)
+			if !ok {
+				return true
+			}
+			for i, st := range blk.List {
+				ifs, ok := st.(*ast.IfStmt)
+				if !ok || ifs.Else != nil || len(ifs.Body.List) == 0 {
+					continue
+				}
+				be, ok := stripParens(ifs.Cond).(*ast.BinaryExpr)
+				if !ok || be.Op != token.EQL {
+					continue
+				}
+				x, y := be.X, be.Y
+				if objOf(info, stripParens(y)) == verParam {
+					x, y = y, x
+				}
+				if objOf(info, stripParens(x)) != verParam {
+					continue
+				}
+				if _, isRet := ifs.Body.List[len(ifs.Body.List)-1].(*ast.ReturnStmt); !isRet {
+					continue
+				}
+				if expectedVersionExpr(p, info, resolveLocal(y), verConst) && a.alwaysPanics(info, blk.List[i+1:]) {
+					okGuard = true
+				}
+			}
+			return true
+		})
 		r.Check("C27.version-map", "rules.VersionRule.OnVersion|reject-other-versions", vr.Decl.Pos(), okGuard,
 			"VersionRule.OnVersion has no `version != <ConciseEncodingVersion> => reject` guard: other versions would be accepted")
 	}
@@ -757,4 +805,69 @@ func checkWriteVersion(r *core.Run, p *core.Program, a *analysis, g *Grammar, si
 		r.Check("C27.write-version", cteEnc.Name()+"|writes-header-letter", cteEnc.Decl.Pos(), okHdr,
 			"the CTE encoder's document header letter "+seen+" is not a first character of the lexer's VERSION token")
 	}
+}
+
+// ifChainAsByteSwitch reads a top-level `if b == K1 || b == K2 { A } else if b == K3 { B } else { D }` chain (or
+// guards that return, followed by the default statements) over one byte-typed variable as the switch
+// `switch b { case K1, K2: A; case K3: B; default: D }`; nil when the statements are not of that form.
+func ifChainAsByteSwitch(info *types.Info, list []ast.Stmt) *ast.SwitchStmt {
+	cases, ok := orderedCases(list)
+	if !ok || len(cases) < 2 {
+		return nil
+	}
+	var tag ast.Expr
+	sw := &ast.SwitchStmt{Switch: list[0].Pos(), Body: &ast.BlockStmt{Lbrace: list[0].Pos()}}
+	for _, c := range cases {
+		cc := &ast.CaseClause{Case: c.Pos, Colon: c.Pos, Body: c.Body}
+		if c.List != nil {
+			if len(c.List) != 1 {
+				return nil
+			}
+			good := true
+			var walk func(e ast.Expr)
+			walk = func(e ast.Expr) {
+				e = stripParens(e)
+				be, isBin := e.(*ast.BinaryExpr)
+				if !isBin {
+					good = false
+					return
+				}
+				switch be.Op {
+				case token.LOR:
+					walk(be.X)
+					walk(be.Y)
+				case token.EQL:
+					x, k := be.X, be.Y
+					if constVal(info, x) != nil {
+						x, k = k, x
+					}
+					if constVal(info, k) == nil || objOf(info, x) == nil {
+						good = false
+						return
+					}
+					if tag != nil && objOf(info, tag) != objOf(info, x) {
+						good = false
+						return
+					}
+					tag = x
+					cc.List = append(cc.List, k)
+				default:
+					good = false
+				}
+			}
+			walk(c.List[0])
+			if !good {
+				return nil
+			}
+		}
+		sw.Body.List = append(sw.Body.List, cc)
+	}
+	if tag == nil {
+		return nil
+	}
+	if bt, ok := info.TypeOf(tag).Underlying().(*types.Basic); !ok || bt.Kind() != types.Uint8 {
+		return nil
+	}
+	sw.Tag = tag
+	return sw
 }
